@@ -184,7 +184,7 @@ def stream_typed_ranking(ctx):
 
 
 def run(ctx, built):
-    stream_meas(ctx, built, ctx.scale(10, 80))
+    stream_meas(ctx, built, ctx.scale(18, 100))
     stream_ranking(ctx, built)
 
 
